@@ -30,9 +30,11 @@ type query struct {
 
 type taxCase struct {
 	Tree   ref.Tree
-	Build  string        // "api": NewTaxonomy/AddNewTaxa/ReindexParent/AddNewName/AddNewAlias; "dump": LoadNCBITaxDump
+	Build  string        // "api": NewTaxonomy/AddNewTaxa/ReindexParent/AddNewName/AddNewAlias; "dump": LoadNCBITaxDump;
+	// "dumpx": LoadNCBITaxDump on the files described by Plan; "apix": the lines of Plan through the API, as the loader does
 	Dump   ref.DumpStyle // file layout; Dump.Order is also the AddNewTaxa order of the api build
 	OnlySN bool          // second argument of LoadNCBITaxDump
+	Plan   *dumpPlan     `json:",omitempty"` // builds "dumpx"/"apix": dump files with taxids declared several times, names and merged lines in any order (plan_test.go)
 
 	// Mode "queries": the listed queries.  Mode "triples": every (A,B) over all
 	// nodes, aliases and Unknown ids, and for each every C over nodes and aliases.
@@ -137,6 +139,16 @@ func build(c *taxCase) (*obitax.Taxonomy, error) {
 		return tax, err
 	case "dump":
 		return buildDump(c)
+	case "dumpx":
+		return buildPlanDump(c)
+	case "apix":
+		var tax *obitax.Taxonomy
+		var err error
+		out := fatal.Run(func() { tax, err = buildPlanAPI(c) })
+		if !out.Completed {
+			return nil, fmt.Errorf("building the taxonomy through the API (lines of the plan) did not return: %v\n%s", out, out.Stack)
+		}
+		return tax, err
 	}
 	return nil, fmt.Errorf("harness: unknown build mode %q", c.Build)
 }
@@ -554,7 +566,7 @@ func rankClass(t *ref.Tree, used map[string]bool, a int, rank string) (bool, []s
 }
 
 func treeKey(c *taxCase) uint64 {
-	return evid.Hash(fmt.Sprint(c.Tree.Parent), fmt.Sprint(c.Tree.Taxid), fmt.Sprint(c.Tree.Rank), fmt.Sprint(c.Tree.Alias), c.Build, c.Dump.FullColumns, c.OnlySN)
+	return evid.Hash(fmt.Sprint(c.Tree.Parent), fmt.Sprint(c.Tree.Taxid), fmt.Sprint(c.Tree.Rank), fmt.Sprint(c.Tree.Alias), c.Build, c.Dump.FullColumns, c.OnlySN, c.Plan.key())
 }
 
 // checkTax builds the taxonomy of the case and asks every query of the case.
@@ -569,6 +581,11 @@ func runTax(c *taxCase, count bool) error {
 	if err != nil {
 		return err
 	}
+	return runQueries(c, tax, count)
+}
+
+// runQueries asks every query of the case to a taxonomy that was built for the tree of the case.
+func runQueries(c *taxCase, tax *obitax.Taxonomy, count bool) error {
 	t := &c.Tree
 	if tax.Len() != t.N() {
 		return fmt.Errorf("taxonomy built (%s) from %d nodes has Len() = %d", c.Build, t.N(), tax.Len())
